@@ -82,8 +82,8 @@ func c02Kinds(seed int64) []unitKind {
 		{Name: "pes-unbounded", Make: func(_, _ int) SUnit { return PESUnit(0x100, 0xe0, pesPayload(12, 500, seed), 1, false) }},
 		{Name: "pes-start-code-lookalikes", Make: func(_, _ int) SUnit { return PESUnit(0x100, 0xe0, hostilePayload(0, 430), 3, false) }},
 		{Name: "pes-bounded-start-code-lookalikes", Make: func(_, _ int) SUnit { return PESUnit(0x101, 0xc0, hostilePayload(4, 300), 4, true) }},
-		{Name: "pes-unbounded-ff-ends", Make: func(_, _ int) SUnit { return PESUnit(0x100, 0xe0, hostilePayload(9, 400), 5, false) }},
-		{Name: "pes-unbounded-all-ff", Make: func(_, _ int) SUnit { return PESUnit(0x100, 0xe0, hostilePayload(10, 250), 6, false) }},
+		{Name: "pes-unbounded-ff-ends", Make: func(_, _ int) SUnit { return PESUnit(0x100, 0xef, hostilePayload(9, 400), 5, false) }}, // video stream ids other than 0xe0 are unbounded as well
+		{Name: "pes-unbounded-all-ff", Make: func(_, _ int) SUnit { return PESUnit(0x100, 0xe7, hostilePayload(10, 250), 6, false) }},
 		// private data on a PID that is neither PSI nor PES: the unit starts with bytes that are close to, but not,
 		// the PES start code 00 00 01. Nothing is delivered for it and nothing is reported as an error.
 		{Name: "private-data-5-0-1", Make: func(_, _ int) SUnit {
